@@ -66,8 +66,14 @@ func (s *syncStore[H]) Append(ctx context.Context, headers ...H) error {
 	//	However, Syncer has yet to be refactored to not assume those invariants and until then
 	//	this method is a shim that allows using store with old assumptions.
 	//  To be reworked by bsync.
-	if headers[0].Height() >= head.Height() {
-		for _, h := range headers {
+	// headers below the head (e.g. the tail being moved down) have nothing to continue;
+	// the part of the list that reaches the head or goes beyond it has to
+	rest := headers
+	for len(rest) > 0 && rest[0].Height() < head.Height() {
+		rest = rest[1:]
+	}
+	if len(rest) > 0 {
+		for _, h := range rest {
 			if h.Height() == head.Height() && bytes.Equal(h.Hash(), head.Hash()) {
 				// the head itself again (e.g. the last header of a requested range that a
 				// concurrent append has stored meanwhile): nothing new to check
